@@ -156,6 +156,9 @@ class MeanRegressor(RegressorMixin, BaseEstimator):
 class MultiScore(ClassifierMixin, BaseEstimator):
     """Scorer whose three prediction methods return DIFFERENT scores (columns 0, 1, 2 of X): decision_function, predict_proba[:,1], predict."""
 
+    def __init__(self, predict_dtype=None):
+        self.predict_dtype = predict_dtype  # None: float64; else the (narrow) dtype of the hard labels returned by predict
+
     def fit(self, X, y=None, **kw):
         self.fitted_ = True
         self.classes_ = np.array([0, 1])
@@ -169,4 +172,4 @@ class MultiScore(ClassifierMixin, BaseEstimator):
         return np.column_stack([1 - p, p])
 
     def predict(self, X):
-        return np.asarray(X)[:, 2].astype(float)
+        return np.asarray(X)[:, 2].astype(self.predict_dtype or float)
